@@ -396,7 +396,11 @@ def r5(R):
     # the fast route passes omegasign through Ctransform.pars (R1 checks the slot)
     R.check("transform.Ctransform(pars.parameters)" in fu.replace(" ", "").replace("(pars", "(pars") or "transform.Ctransform(pars.parameters)" in fu, "C01.R5", CF, top[0].lineno,
             "columnfile.updateGeometry", "fast: Ctransform(pars.parameters)", "fast route is not built from the same parameter set")
-    # refinegrains.compute_gv: omega * sign at every use, and wavelength/wedge/chi reach every transform call
+    rg_compute_gv(R, "C01.R5")
+
+
+def rg_compute_gv(R, rule):
+    """refinegrains.compute_gv (shared with C09): omega * sign at every use; wavelength, wedge, chi reach every transform call"""
     mr = pyfacts.module(R, RG)
     g = mr.func("refinegrains.compute_gv")
     for c in ast.walk(g):
@@ -406,12 +410,12 @@ def r5(R):
             txt = " ".join(args)
             if nm in ("compute_g_vectors", "uncompute_g_vectors"):
                 roles = [role_of(mr, g, a) for a in c.args]
-                R.check("wavelength" in roles and "wedge" in roles and "chi" in roles, "C01.R5", RG, c.lineno, "refinegrains.compute_gv",
+                R.check("wavelength" in roles and "wedge" in roles and "chi" in roles, rule, RG, c.lineno, "refinegrains.compute_gv",
                         "%s receives wavelength, wedge and chi (%s)" % (nm, roles),
                         "a goniometer parameter is not passed and silently takes its default 0: wrong for wedge != 0 / chi != 0")
                 if "wavelength" in roles and "wedge" in roles and "chi" in roles:
-                    R.check(roles.index("wavelength") < roles.index("wedge") < roles.index("chi"), "C01.R5", RG, c.lineno, "refinegrains.compute_gv",
+                    R.check(roles.index("wavelength") < roles.index("wedge") < roles.index("chi"), rule, RG, c.lineno, "refinegrains.compute_gv",
                             "%s argument order wavelength, wedge, chi" % nm, "wedge and chi are swapped")
             if nm in ("compute_tth_eta_from_xyz", "compute_g_vectors"):
-                R.check("om * sign" in txt or "omega_calc" in txt, "C01.R5", RG, c.lineno, "refinegrains.compute_gv", "%s uses om*sign (or the fitted omega)" % nm,
+                R.check("om * sign" in txt or "omega_calc" in txt, rule, RG, c.lineno, "refinegrains.compute_gv", "%s uses om*sign (or the fitted omega)" % nm,
                         "the omega sign is dropped on this call")
